@@ -131,6 +131,81 @@ def must_resets(f, M, names, meths):
     return set.intersection(*exits) if exits else set()
 
 
+MUTATORS = ("append", "extend", "insert", "pop", "remove", "sort", "update", "clear", "__setitem__", "setdefault")
+
+
+def _self_rooted(e):
+    while isinstance(e, (ast.Attribute, ast.Subscript, ast.Call)):
+        e = e.func if isinstance(e, ast.Call) else e.value
+    return isinstance(e, ast.Name) and e.id == "self"
+
+
+def _canon(e):
+    """self.a.b(...)[i] -> 'self.a.b()[]' : the access path without arguments"""
+    if isinstance(e, ast.Name):
+        return e.id
+    if isinstance(e, ast.Attribute):
+        return _canon(e.value) + "." + e.attr
+    if isinstance(e, ast.Call):
+        return _canon(e.func) + "()"
+    if isinstance(e, ast.Subscript):
+        return _canon(e.value) + "[]"
+    return "?"
+
+
+def alias_mutations(f):
+    """In-place mutation of an object obtained from `self` (statement order, rebinding a name to a fresh value ends the alias):
+         x = self.<...> ;  x[i] = ... / x.attr = ... / x.append(...)      ->  reported as the source expression of x
+       This is what an attribute-write table cannot see: the object behind self.bounding_box / self.forward_transform is changed
+       without any `self.attr = ...` statement."""
+    alias, out = {}, []
+
+    def base_name(e):
+        while isinstance(e, (ast.Subscript, ast.Attribute)):
+            e = e.value
+        return e.id if isinstance(e, ast.Name) else None
+
+    def visit(stmts, depth=0):
+        for s in stmts:
+            if isinstance(s, (ast.FunctionDef, ast.ClassDef)):
+                continue
+            # stores / mutating calls in this statement (not in nested blocks)
+            own = [n for n in ast.iter_child_nodes(s) if isinstance(n, ast.expr)]
+            targets = s.targets if isinstance(s, ast.Assign) else ([s.target] if isinstance(s, (ast.AugAssign, ast.AnnAssign)) else [])
+            for t in targets:
+                for x in ast.walk(t):
+                    if isinstance(x, (ast.Subscript, ast.Attribute)) and isinstance(getattr(x, "ctx", None), ast.Store):
+                        b = base_name(x)
+                        if b in alias:
+                            out.append(alias[b])
+            for e in own:
+                for n in ast.walk(e):
+                    if isinstance(n, ast.Call) and isinstance(n.func, ast.Attribute) and n.func.attr in MUTATORS:
+                        b = base_name(n.func.value)
+                        if b in alias:
+                            out.append(alias[b])
+            # alias bookkeeping
+            if isinstance(s, ast.Assign) and len(s.targets) == 1 and isinstance(s.targets[0], ast.Name):
+                name, val = s.targets[0].id, s.value
+                if _self_rooted(val):
+                    alias[name] = _canon(val)
+                elif isinstance(val, ast.Name) and val.id in alias:
+                    alias[name] = alias[val.id]
+                elif isinstance(val, (ast.Subscript, ast.Attribute)) and base_name(val) in alias:
+                    alias[name] = alias[base_name(val)]
+                elif depth == 0:
+                    alias.pop(name, None)          # rebinding on the main path ends the alias; inside a branch it may still hold after the merge
+            for fld in ("body", "orelse", "finalbody"):
+                sub = getattr(s, fld, None)
+                if isinstance(sub, list):
+                    visit(sub, depth + 1)
+            for h in getattr(s, "handlers", []):
+                visit(h.body, depth + 1)
+
+    visit(f.body)
+    return sorted(set(out))
+
+
 def gen(repo):
     tree = ast.parse(open(os.path.join(repo, "gwcs", "wcs.py")).read())
     api = ast.parse(open(os.path.join(repo, "gwcs", "api.py")).read())
@@ -172,12 +247,23 @@ def gen(repo):
                 R[m] = r
                 changed = True
 
+    A = {m: alias_mutations(f) for m, f in meths.items()}
+    changed = True
+    while changed:                       # closed under calls between methods, like the write table
+        changed = False
+        for m in meths:
+            for d in deps[m]:
+                if d in A and not set(A[d]) <= set(A[m]):
+                    A[m] = sorted(set(A[m]) | set(A[d]))
+                    changed = True
+
     def tab(T):
         return "[" + "; ".join('("%s", [%s])' % (m, "; ".join('"%s"' % a for a in sorted(T[m]))) for m in sorted(T)) + "]"
     src = ("(* GENERATED by tools/py2coq/gen_writes.py — do not edit. *)\nFrom Coq Require Import List String.\n"
            "Import ListNotations.\nLocal Open Scope string_scope.\n"
            f"Definition writes : list (string * list string) := {tab(W)}.\n"
-           f"Definition resets : list (string * list string) := {tab(R)}.\n")
+           f"Definition resets : list (string * list string) := {tab(R)}.\n"
+           f"Definition alias_writes : list (string * list string) := {tab(A)}.\n")
     return src, W, R
 
 
@@ -195,3 +281,4 @@ if __name__ == "__main__":
         print(m, sorted(W[m]), sorted(R[m]))
     for q in QUERIES:
         print(q, sorted(W.get(q, ["?"])))
+    print(s[s.index("Definition alias_writes"):][:1500])
